@@ -39,9 +39,9 @@ type Case struct {
 	Tail bool `json:"tail,omitempty"`
 }
 
-var spinCores = []string{"loop", "loop_cond", "cfor", "cfor_nocond", "forin_nested", "forin_map", "recursion", "loop_in_switch", "loop_nested_break", "loop_continue", "fanout_range", "fanout_recv", "fanout_recv2", "pipeline_relay", "deep_recursion", "fail_after_tick", "member_after_tick", "throw_spin", "fail_in_finally_try"}
+var spinCores = []string{"loop", "loop_cond", "cfor", "cfor_nocond", "forin_nested", "forin_map", "recursion", "loop_in_switch", "loop_nested_break", "loop_continue", "fanout_range", "fanout_recv", "fanout_recv2", "pipeline_relay", "deep_recursion", "fail_after_tick", "member_after_tick", "throw_spin", "fail_in_finally_try", "tick_sequence"}
 var blockCores = []string{"recv", "send", "recv2", "range_chan", "recv_stmt", "drain_two", "drain_three", "forward_blocked", "forward_full"}
-var wrappers = []string{"fn0", "fn2", "fn4", "fn5", "fnvar", "anon", "go_join", "go_join5", "try_body", "catch", "finally", "coalesce_l", "coalesce_r", "ternary", "deferred", "list_elem", "go_arg", "module", "if", "switch_case", "forin_once", "try_empty_catch", "try_empty_catch_e", "try_empty_finally", "deferred_implicit", "deferred_top", "deferred_twice", "return_call", "finally_after_throwing_catch", "finally_after_returning_catch", "callback"}
+var wrappers = []string{"fn0", "fn2", "fn4", "fn5", "fnvar", "anon", "go_join", "go_join5", "try_body", "catch", "finally", "coalesce_l", "coalesce_r", "ternary", "deferred", "list_elem", "go_arg", "module", "if", "switch_case", "forin_once", "try_empty_catch", "try_empty_catch_e", "try_empty_finally", "deferred_implicit", "deferred_top", "deferred_twice", "return_call", "finally_after_throwing_catch", "finally_after_returning_catch", "callback", "defer_spin_behind", "defer_block_behind"}
 
 func gen(t *rapid.T) Case {
 	c := Case{Procs: 0}
@@ -61,6 +61,10 @@ func gen(t *rapid.T) Case {
 	c.Procs = rapid.SampledFrom([]int{0, 0, 1, 2, 4}).Draw(t, "procs")
 	c.Stale = rapid.IntRange(0, 3).Draw(t, "stale") == 0
 	c.Tail = rapid.IntRange(0, 2).Draw(t, "tail") == 0
+	if c.Core == "tick_sequence" {
+		// a straight line ends by itself: only a cancellation placed inside one of its calls is decisive
+		c.Mode = "A"
+	}
 	if c.Core == "deep_recursion" {
 		if rapid.IntRange(0, 9).Draw(t, "deep?") != 0 {
 			c.Core = "recursion" // the deep core costs more than half a second per case: kept rare
@@ -102,6 +106,10 @@ func coreSrc(core string) string {
 		return "func deep(n) {\n tick()\n return deep(n + 1) + 1\n}\ndeep(0)"
 	case "recursion":
 		return "func rec(n) {\n tick()\n if n % 50 == 49 {\n  return n\n }\n return rec(n + 1)\n}\nfor {\n rec(0)\n}"
+	case "tick_sequence":
+		// no loop at all: a straight line of statements that are calls by name of a host function; every
+		// statement polls the context, so nothing after the one in flight runs
+		return strings.Repeat("tick()\n", 63) + "tick()"
 	case "fail_after_tick":
 		// the cancellation lands in the middle of a statement that then fails with an ordinary error inside a
 		// try body: the ordinary error goes to the (empty) catch block, the interruption must still end the run
@@ -235,6 +243,12 @@ func wrap(w string, body string, level int, tail bool) string {
 		return def("") + "func() {\n try {\n  throw 1\n } catch e {\n  return 3\n } finally {\n  " + fn + "()\n }\n}()" + sent
 	case "callback":
 		return def("") + "call(" + fn + ")" + sent
+	case "defer_spin_behind":
+		// the frame that is interrupted has registered a deferred SCRIPT function that would spin: it runs
+		// under the same cancelled context and ends at its first statement
+		return "func() {\n defer func() {\n  for {\n   tick()\n  }\n }()\n" + indent(body) + sent + "\n return 1\n}()" + sent
+	case "defer_block_behind":
+		return "func() {\n defer func() {\n  dbv = <-never\n }()\n" + indent(body) + sent + "\n return 1\n}()" + sent
 	}
 	panic("unknown wrapper " + w)
 }
@@ -424,6 +438,10 @@ func oracle(c Case, o *h.Obs) *h.Fail {
 	src := source(c)
 	o.Key = fmt.Sprintf("%s|%s|%d|%d|%d|%v", src, c.Mode, c.K, c.DelayUs, c.Procs, c.Stale)
 	o.Note = fmt.Sprintf("mode=%s k=%d delay=%dus procs=%d\n%s", c.Mode, c.K, c.DelayUs, c.Procs, src)
+	if c.Mode == "B" && c.Core == "tick_sequence" {
+		o.Excluded = "a straight-line core needs the cancellation placed inside one of its calls"
+		return nil
+	}
 	if c.Mode == "A" && !isSpin(c.Core) {
 		o.Excluded = "blocked core needs asynchronous cancellation"
 		return nil
